@@ -1283,7 +1283,9 @@ class HexAssembly(Assembly):
         ValueError
             If rotation is not divisible by pi / 3.
         """
-        if math.isclose(rad % (math.pi / 3), 0, abs_tol=1e-12):
+        # the floating remainder of an exact multiple is either just above zero or just below pi / 3
+        remainder = rad % (math.pi / 3)
+        if math.isclose(min(remainder, math.pi / 3 - remainder), 0, abs_tol=1e-12):
             return super().rotate(rad)
 
         msg = (
